@@ -241,6 +241,12 @@ theorem short_basis_gauss_reduced {q : Int} (hq : 0 ≤ q) {m r : M2} (h : short
     2 * bilV q r.col1 r.col0 ≤ normV q r.col0 ∧ -normV q r.col0 ≤ 2 * bilV q r.col1 r.col0 :=
   shortBasis_gauss_reduced hq h
 
+/-- **the first output column is a SHORTEST non-zero vector of the input lattice** (q ≥ 0): every non-zero integer
+    combination `x·(col 0) + y·(col 1)` of the INPUT columns has norm ≥ N(first output column). -/
+theorem short_basis_first_is_shortest {q : Int} (hq : 0 ≤ q) {m r : M2} (h : shortBasis q m = some r) {x y : Int}
+    (hxy : ¬(x = 0 ∧ y = 0)) : normV q r.col0 ≤ normV q (m.eval ⟨x, y⟩) :=
+  shortBasis_shortest_input hq h hxy
+
 /-- total correctness: for q > 0 and linearly independent input columns the routine returns (no division by zero,
     the loop terminates: `norm_b` strictly decreases). -/
 theorem short_basis_terminates {q : Int} (hq : 0 < q) {m : M2} (hd : m.det ≠ 0) : (shortBasis q m).isSome = true :=
@@ -321,6 +327,26 @@ theorem enumerate_short_vec_complete_in_box (cond : V2 → Option Elem) (q : Int
     (htries : cellsOfRows pre (intRange (-pre.boundY) (y - 1)) + (intRange lo (x - 1)).length < mt)
     {e : Elem} (hhit : boundAndCondition cond q x y tmc b nb = some e) : r = some e :=
   enum_complete_in_box cond q tmc b nb mt hpre hres hy1 hy2 hrow hx1 hx2 hrows hrowy htries hhit
+
+open SqiProofs.LllEnum in
+/-- **completeness for forms with `a = 1` or `b = 0`** (e.g. every basis whose first vector has norm 1, every
+    orthogonal basis): a point `(x,y)` of the centred ellipse at which bound+condition holds IS returned, provided no
+    earlier cell hits or is the origin and fewer than `max_tries` cells precede it. -/
+theorem enumerate_short_vec_complete_special (cond : V2 → Option Elem) (q : Int) (tmc : V2) (b : M2) (nb : Int) (mt : Nat)
+    {pre : EnumPre} (hpre : enumPre q tmc b nb = some pre) (ha : 0 < qfA q b) (hs : qfA q b = 1 ∨ qfB q b = 0)
+    {r : Option Elem} (hres : enumerateShortVec cond q tmc b nb mt = some r) {x y : Int}
+    (hell : qfA q b * x * x + qfB q b * x * y + qfC q b * y * y ≤ nbeOf q tmc nb)
+    {e : Elem} (hhit : boundAndCondition cond q x y tmc b nb = some e) :
+    ∃ lo hi, rowBounds pre y = some (lo, hi) ∧
+      ((∀ y' ∈ intRange (-pre.boundY) (y - 1), ∀ lo' hi', rowBounds pre y' = some (lo', hi') →
+          ∀ x' ∈ intRange lo' hi', Pass cond q tmc b nb x' y') →
+       (∀ x' ∈ intRange lo (x - 1), Pass cond q tmc b nb x' y) →
+       cellsOfRows pre (intRange (-pre.boundY) (y - 1)) + (intRange lo (x - 1)).length < mt →
+       r = some e) := by
+  obtain ⟨⟨lo, hi, hrow, hlo, hhi⟩, _, hy⟩ := enumeration_box_contains hpre ha hell
+  obtain ⟨hy1, hy2⟩ := hy hs
+  exact ⟨lo, hi, hrow, fun h1 h2 h3 =>
+    enum_complete_in_box cond q tmc b nb mt hpre hres (by omega) (by omega) hrow (by omega) (by omega) h1 h2 h3 hhit⟩
 
 /-- **the box does NOT contain the ellipse in general** (the y-bound uses `4a²c - b²` where the ellipse gives
     `4a²c - a·b²`): q = 3, reduced basis (2,0),(-1,1) (form (4,-4,4)), target_minus_closest = 0, norm_bound = 680.
